@@ -1,5 +1,7 @@
 import QR.Proofs.Fit
 import QR.Proofs.Pinned
+import QR.Proofs.SourceTieA5
+import QR.Proofs.SourceTieB1
 /-
 C07 - automatic fitting picks the smallest adequate version; capacities match ISO.
 `Model.bestFit` mirrors QRCode.best_fit: stream length with the count widths of the class of `start`, `bisect_left` on
@@ -54,6 +56,101 @@ theorem C07_capacity_rows : ∀ l ∈ allLevels,
 
 theorem C07_capacity_increasing : ∀ l ∈ allLevels, ∀ v, v < 39 →
     Spec.capacityBits (v + 1) l < Spec.capacityBits (v + 2) l := C07_capacity_monotone
+
+
+/-! ### Source tie, part 2 (T2 plugins `tools/t2_fragments/`): the hand-written Model equals the definitions translated from
+    /repo's current Python AST (`QR.Gen.Code`, regenerated on every run). Restated verbatim from `QR/Proofs/SourceTie*.lean`. -/
+section SourceTieT2
+open QR.Model QR.Gen.Code QR.SourceTieA QR.SourceTieB
+
+/-- `_data_count(block) = block.data_count`: the second field of `RSBlock(total_count, data_count)` -/
+theorem C07_source_data_count_src (total data : Nat) : data_count_proj total data = data :=
+  QR.SourceTieA.data_count_src total data
+
+theorem C07_source_bit_limit_literals : bit_limit_summand = "_data_count" ∧
+    bit_limit_blocks = ("base.rs_blocks", ["version", "level"]) :=
+  QR.SourceTieA.bit_limit_literals
+
+/-- **BIT_LIMIT_TABLE**: the table dumped from the running library (`Gen.BIT_LIMIT_TABLE`, the one `Model.bestFit`
+    bisects) is exactly the translated comprehension evaluated with `Model.rsBlocks`:
+    `[row(ec) for ec in range(4)]`. -/
+theorem C07_source_bitLimitTable_src :
+    (List.range' bit_limit_level_range.1 (bit_limit_level_range.2 - bit_limit_level_range.1)).mapM bitLimitRow
+      = .ok Gen.BIT_LIMIT_TABLE :=
+  QR.SourceTieA.bitLimitTable_src
+
+/-- `Model.dataBits` computes `bit_limit` as `sum(block.data_count * 8)`; the table entry is `8 * sum(data_count)` -/
+theorem C07_source_bit_limit_entry_src (bs : List (Nat × Nat)) :
+    (bs.map fun b => b.2 * 8).sum = bit_limit_entry ((bs.map fun b => data_count_proj b.1 b.2).sum) :=
+  QR.SourceTieA.bit_limit_entry_src bs
+
+/-- the literals the model relies on: which functions are called, on what -/
+theorem C07_source_bestFit_literals :
+    best_fit_check_func = "util.check_version" ∧ best_fit_sizes_func = "util.mode_sizes_for_version" ∧
+    best_fit_buffer_init = "util.BitBuffer()" ∧ best_fit_loop_iter = "self.data_list" ∧
+    best_fit_write_call = "data.write(buffer)" ∧ best_fit_bisect_func = "bisect.bisect_left" ∧
+    best_fit_bisect_table = "util.BIT_LIMIT_TABLE" ∧ best_fit_overflow_exc = "exceptions.DataOverflowError()" ∧
+    best_fit_return = "self.version" :=
+  QR.SourceTieB.bestFit_literals
+
+/-- the accumulation loop `buffer.put(data.mode, 4); buffer.put(len(data), mode_sizes[data.mode]); data.write(buffer)`:
+    one step of `segsBits`, with both `put`s (value, width) and the looked-up key taken from the source -/
+theorem C07_source_segsBits_src (width : Nat → R Nat) (s : Seg) (rest : List Seg) :
+    segsBits width (s :: rest) = (do
+      let w ← width (best_fit_put_len_key s.mode s.data.length)
+      let d ← segWrite s
+      let tl ← segsBits width rest
+      pure (bitsBE (best_fit_put_mode s.mode s.data.length).1 (best_fit_put_mode s.mode s.data.length).2
+            ++ bitsBE (best_fit_put_len s.mode s.data.length w).1 (best_fit_put_len s.mode s.data.length w).2
+            ++ d ++ tl)) :=
+  QR.SourceTieB.segsBits_src width s rest
+
+/-- `best_fit(start)`: every statement of the source, in order -/
+theorem C07_source_bestFit_src (fuel start level : Nat) (segs : List Seg) :
+    bestFit (fuel + 1) start level segs = (do
+      let start := best_fit_start (optStart start)
+      if check_version_bad (best_fit_check_arg start) then .error .valueError
+      else do
+        let sizes := modeSizes (best_fit_sizes_arg start)
+        let buffer ← segsBits (fun m => dictGet sizes m) segs
+        let row ← idx Gen.BIT_LIMIT_TABLE (best_fit_bisect_row level)
+        let version := bisectLeft row (best_fit_bisect_x start buffer.length) (row.length + 1)
+                          (best_fit_bisect_lo start buffer.length) row.length
+        if best_fit_overflow version then .error .dataOverflow
+        else do
+          let stored := best_fit_store version
+          checkVersion stored          -- the `version` setter
+          if best_fit_refit mode_size_class start stored then bestFit fuel (best_fit_recurse_start stored) level segs
+          else pure stored) :=
+  QR.SourceTieB.bestFit_src fuel start level segs
+
+/-- the stateful variant used by the object model performs the same steps -/
+theorem C07_source_bestFitS_src (fuel start : Nat) (s : QRState) :
+    bestFitS (fuel + 1) start s =
+      (let start := best_fit_start (optStart start)
+       if check_version_bad (best_fit_check_arg start) then (s, .error .valueError)
+       else
+        let sizes := modeSizes (best_fit_sizes_arg start)
+        match segsBits (fun m => dictGet sizes m) s.dataList with
+        | .error e => (s, .error e)
+        | .ok buffer =>
+          match idx Gen.BIT_LIMIT_TABLE (best_fit_bisect_row s.level) with
+          | .error e => (s, .error e)
+          | .ok row =>
+            let version := bisectLeft row (best_fit_bisect_x start buffer.length) (row.length + 1)
+                              (best_fit_bisect_lo start buffer.length) row.length
+            if best_fit_overflow version then (s, .error .dataOverflow)
+            else
+              let stored := best_fit_store version
+              match checkVersion stored with
+              | .error e => (s, .error e)
+              | .ok _ =>
+                let s := { s with version := stored }
+                if best_fit_refit mode_size_class start stored then bestFitS fuel (best_fit_recurse_start stored) s
+                else (s, .ok stored)) :=
+  QR.SourceTieB.bestFitS_src fuel start s
+
+end SourceTieT2
 
 /-- the Python functions this property's model mirrors have, in /repo's current working tree, exactly the normalised
     ASTs the model was written and validated against (fingerprints regenerated by T1 on every run) -/
